@@ -675,6 +675,23 @@ func (c *Ctx) mergeStates(ins []*State) *State {
 
 // splitAnd splits a top-level SMT conjunction into its conjuncts.
 func splitAnd(t string) []string {
+	if strings.HasPrefix(t, "(=> ") {
+		// (=> c (and a b)) splits into (=> c a), (=> c b)
+		body := t[4 : len(t)-1]
+		ant := firstArg(body)
+		cons := strings.TrimSpace(body[len(ant):])
+		if strings.HasPrefix(cons, "(and ") {
+			parts := splitAnd(cons)
+			if len(parts) > 1 && len(parts) <= 16 {
+				var out []string
+				for _, p := range parts {
+					out = append(out, "(=> "+ant+" "+p+")")
+				}
+				return out
+			}
+		}
+		return []string{t}
+	}
 	if !strings.HasPrefix(t, "(and ") {
 		return []string{t}
 	}
